@@ -17,7 +17,7 @@ HARNESSES += [
     Harness('addrtab', 'h_addrtab_two', unwind=33, bounds=BA % 'two', mem_gb=5, timeout=1200),
     Harness('addrtab', 'h_addrtab_one_kf_D5', unwind=33, known='D5', bounds='as h_addrtab_one, confined to: a user section is ordered after .addrtab', mem_gb=2, timeout=900),
     Harness('addrtab', 'h_addrtab_two_kf_D5', unwind=33, known='D5', bounds='as h_addrtab_two, confined to: a user section is ordered after .addrtab', mem_gb=8, timeout=1200, tiers=('thorough',)),
-    Harness('addrtab', 'h_addrtab_image', unwind=33, bounds='as h_addrtab_one, layout case (table last or not) x (target within rel32 reach or not) fixed per instantiation; every byte is read back from the 48-byte destination of the real copy_flattened_data (8+8 guard bytes)', mem_gb=3, timeout=1800),
+    Harness('addrtab', 'h_addrtab_image', unwind=33, bounds='as h_addrtab_one, layout case (table last or not) x (target within rel32 reach or not) fixed per instantiation; every byte is read back from the 48-byte destination of the real copy_flattened_data (8+8 guard bytes)', mem_gb=5, timeout=1800),
     Harness('addrtab', 'h_addrtab_image_kf_D5', unwind=33, known='D5', bounds='as h_addrtab_image, confined to: a user section is ordered after .addrtab', mem_gb=5, timeout=1800, tiers=('thorough',)),
     Harness('knownbase', 'h_known_base_x64_known', unwind=33, bounds='x86-64 call/jmp imm64 through the real x86 _emit with the base address known at init (+ flatten / relocate_to_base when the target is out of rel32 reach); target and base all 2^64 values', mem_gb=3, timeout=1800, flags=['--max-field-sensitivity-array-size', '256'],
             unwindset='_ZN6asmjit5v1_21L30CodeHolder_evaluate_expressionEPNS0_10CodeHolderEPNS0_10ExpressionEPm:1'),
